@@ -201,6 +201,12 @@ func (w *world) checkLookups(cv *canonView, idle bool) *simcore.Violation {
 				return viol("txlookup-noncanonical", "lookup of tx %x resolves to #%d %x but the tx is not in the canonical chain", h[:4], lk.BlockIndex, lk.BlockHash[:4])
 			}
 			if lk.BlockHash != hm.hash || lk.BlockIndex != hm.num || lk.Index != uint64(hm.idx) || tx == nil || tx.Hash() != h {
+				if _, dbHash, dbNum, dbIdx := rawdb.ReadCanonicalTransaction(w.db, h); dbHash == hm.hash && dbNum == hm.num && dbIdx == uint64(hm.idx) {
+					// the database resolves the transaction correctly, BlockChain's lookup cache does not
+					v := viol("txlookup-wrong", "GetCanonicalTransaction(%x) gives #%d %x index %d from its cache, the database (and the canonical chain) say #%d %x index %d", h[:4], lk.BlockIndex, lk.BlockHash[:4], lk.Index, hm.num, hm.hash[:4], hm.idx)
+					v.Key = "txlookup-wrong:stale-lookup-cache"
+					return v
+				}
 				return viol("txlookup-wrong", "lookup of tx %x gives #%d %x index %d, canonical position is #%d %x index %d", h[:4], lk.BlockIndex, lk.BlockHash[:4], lk.Index, hm.num, hm.hash[:4], hm.idx)
 			}
 			rc, err := w.bc.GetCanonicalReceipt(tx, lk.BlockHash, lk.BlockIndex, lk.Index)
@@ -277,6 +283,7 @@ func (w *world) applyEvents(evs []chainEv, cv *canonView, headBefore common.Hash
 				}
 				k := logKey{l.BlockHash, l.Index}
 				if w.live[k] {
+					w.dupLogBlock = w.tree.nodeOf(l.BlockHash)
 					v := viol("added-log-twice", "LogsEvent announces log %d of block #%d %x again although it is live (no RemovedLogsEvent in between)", l.Index, l.BlockNumber, l.BlockHash[:4])
 					return v
 				}
@@ -364,6 +371,14 @@ func (w *world) checkLiveLogs(cv *canonView) *simcore.Violation {
 	}
 	if len(miss) > 0 {
 		srt(miss)
+		w.missLogBlocks = nil
+		seen := map[int]bool{}
+		for _, k := range miss {
+			if i := w.tree.nodeOf(k.block); !seen[i] {
+				seen[i] = true
+				w.missLogBlocks = append(w.missLogBlocks, i)
+			}
+		}
 		n := w.tree.byHash[miss[0].block]
 		return viol("logs-never-announced", "%d logs of the canonical chain were never announced by a LogsEvent (first: log %d of #%d %x)", len(miss), miss[0].index, n.depth, miss[0].block[:4])
 	}
